@@ -50,6 +50,8 @@ Example::
 """
 
 
+import six
+
 import productmd.common
 from productmd.common import Header
 from productmd.composeinfo import Compose
@@ -159,6 +161,12 @@ class Rpms(productmd.common.MetadataBase):
 
         if not path:
             raise ValueError("Path can not be empty.")
+
+        if not isinstance(path, six.string_types):
+            raise TypeError("Path must be a string: %r" % (path, ))
+
+        if sigkey is not None and not isinstance(sigkey, six.string_types):
+            raise TypeError("Sigkey must be a string or None: %r" % (sigkey, ))
 
         if path.startswith("/"):
             raise ValueError("Relative path expected: %s" % path)
